@@ -218,7 +218,8 @@ E("aotools.turbulence.slopecovariance.create_tomographic_covariance_reconstructo
 
 def _covmat(f, A, S):
     masks = [A["m1"], A["m2"]]
-    c = f(2, masks, 4.0, A["diam"][:2], [0, 90000.], A["gs"][:2], A["wl"][:2] * 1e-7, 2, A["alt"][:2], A["r0s"][:2], A["L0s"][:2] + 10., S["threads"])
+    nl = int(S.get("layers", 2))
+    c = f(2, masks, 4.0, A["diam"][:2], [0, 90000.], A["gs"][:2], A["wl"][:2] * 1e-7, nl, A["alt"][:nl], A["r0s"][:nl], A["L0s"][:nl] + 10., S["threads"])
     m1 = c.make_covariance_matrix().copy()
     r = c.make_tomographic_reconstructor(S["cond"])
     return [m1, r]
@@ -226,7 +227,7 @@ def _covmat(f, A, S):
 
 E("aotools.turbulence.slopecovariance.CovarianceMatrix",
   [("m1", ["mask2d"]), ("m2", ["mask2d"]), ("diam", ["vec_pos"]), ("gs", ["pos"]), ("wl", ["vec_pos"]), ("alt", ["vec_inc"]), ("r0s", ["vec_pos"]), ("L0s", ["vec_pos"])],
-  lambda r, z: {"threads": r.choice([1, 1, 2, 3]), "cond": r.choice([0, 1e-3])}, _covmat, weight=5.0)
+  lambda r, z: {"threads": r.choice([1, 1, 2, 3, 5, 8]), "layers": r.choice([1, 2, 3, 4]), "cond": r.choice([0, 1e-3])}, _covmat, weight=5.0)
 
 # ---- turbulence: temporal power spectra ---------------------------------------------------------------------------------------
 E("aotools.turbulence.temporal_ps.calc_slope_temporalps", [("s", ["img2d", "img3d", "cplx2d", "img4d"])], None, lambda f, A, S: f(A["s"]),
